@@ -108,7 +108,7 @@ impl Prop for C32 {
     fn runs(tier: Tier) -> u64 {
         match tier {
             Tier::Quick => 100_000,
-            Tier::Thorough => 5_000_000,
+            Tier::Thorough => 20_000_000,
         }
     }
     fn gen(r: &mut SplitMix, _t: Tier, _i: u64) -> Scn {
